@@ -422,6 +422,23 @@ def gxx_check(ctx, cases, tag, extra_head="", meaning_op="meaning", must_accept=
                     lines.append("static_assert(std::is_same<%s, decltype(g%d::%s)>::value, \"asgn\");" % (want, i, name))
                 except Exception:  # noqa
                     pass
+            # the same declaration under another name / without a name (the wrappers declare locals and prototypes so)
+            try:
+                ren = a.gen_arg_as_cxx(with_template_args=True, name="SH_x")
+                where[len(lines) + 1] = ("renr", i)
+                lines.append("namespace k%d { extern %s; }" % (i, ren))
+                where[len(lines) + 1] = ("ren", i)
+                lines.append("static_assert(std::is_same<decltype(o%d::%s), decltype(k%d::SH_x)>::value, \"renamed\");" % (i, name, i))
+            except Exception:  # noqa
+                pass
+            try:
+                absr = a.gen_arg_as_cxx(with_template_args=True, name=None)
+                where[len(lines) + 1] = ("absr", i)
+                lines.append("namespace u%d { using U = %s; }" % (i, absr))
+                where[len(lines) + 1] = ("abs", i)
+                lines.append("static_assert(std::is_same<decltype(o%d::%s), u%d::U>::value, \"abstract\");" % (i, name, i))
+            except Exception:  # noqa
+                pass
             if ref[i] is not None and ref[i][1] and ref[i][0] == name:
                 where[len(lines) + 1] = ("ref", i)
                 lines.append("static_assert(std::is_same<decltype(o%d::%s), %s>::value, \"refdiffer\");" % (i, name, ref[i][2]))
@@ -458,6 +475,12 @@ def gxx_check(ctx, cases, tag, extra_head="", meaning_op="meaning", must_accept=
                          "declared type (pointer/reference/array) nor the declared value type without its const (%s)" % (
                              text, a.gen_arg_as_cxx(with_template_args=True, asgn_value=True),
                              b.get("asgn", b.get("asgnr"))), {"kind": "gxx", "decl": text})
+            for k1, k2, kw, what in (("renr", "ren", dict(name="SH_x"), "name='SH_x'"), ("absr", "abs", dict(name=None), "name=None")):
+                if k1 in b or k2 in b:
+                    cls = "paren-declarator" if (a.declarator is not None and a.declarator.func is not None) else rt_class(a, text)
+                    ctx.fail("gxx-rename:" + cls, "g++: gen_arg_as_cxx(%s) renders %r as %r, which is not the declared type "
+                             "(%s)" % (what, text, a.gen_arg_as_cxx(with_template_args=True, **kw), b.get(k1, b.get(k2))),
+                             {"kind": "gxx", "decl": text})
             if "rend" in b or "same" in b:
                 why = b.get("rend", b.get("same"))
                 ctx.fail("gxx:" + rt_class(a, text), "g++: %r is rendered by gen_arg_as_cxx as %r, not the same type (%s)" % (
@@ -493,6 +516,14 @@ def gcc_c_check(ctx, cases):
             where[len(lines) + 1] = ("same", i)
             lines.append("_Static_assert(__builtin_types_compatible_p(__typeof__(%s_o%d), __typeof__(%s_r%d)), \"differ\");" % (name, i, name, i))
             del r2
+            try:
+                ren = a.gen_arg_as_c(name="SH_x")
+                where[len(lines) + 1] = ("renr", i)
+                lines.append("extern %s;" % re.sub(r"\bSH_x\b", "SH_x%d" % i, ren, count=1))
+                where[len(lines) + 1] = ("ren", i)
+                lines.append("_Static_assert(__builtin_types_compatible_p(__typeof__(%s_o%d), __typeof__(SH_x%d)), \"renamed\");" % (name, i, i))
+            except Exception:  # noqa
+                pass
         src = os.path.join(tmp, "t.c")
         with open(src, "w") as f:
             f.write("\n".join(lines) + "\n")
@@ -518,6 +549,9 @@ def gcc_c_check(ctx, cases):
                          "declared type (pointer/reference/array) nor the declared value type without its const (%s)" % (
                              text, a.gen_arg_as_cxx(with_template_args=True, asgn_value=True),
                              b.get("asgn", b.get("asgnr"))), {"kind": "gxx", "decl": text})
+            if "renr" in b or "ren" in b:
+                ctx.fail("gcc-c-rename", "gcc: gen_arg_as_c(name='SH_x') renders %r as %r, which is not the declared type (%s)" % (
+                    text, a.gen_arg_as_c(name="SH_x"), b.get("renr", b.get("ren"))), {"kind": "gcc", "decl": text})
             if "rend" in b or "same" in b:
                 ctx.fail("gcc-c", "gcc: %r is rendered by gen_arg_as_c as %r: %s" % (text, a.gen_arg_as_c(), b.get("rend", b.get("same"))),
                          {"kind": "gcc", "decl": text})
@@ -564,7 +598,24 @@ POSTGEN_DECLS = [
 POSTGEN_CXX = [
     "void vec(std::vector<int> &v +intent(out)+rank(1))", "const std::string &sname() +len(1)",
     "void sarg(std::string &s +intent(inout)+len(1))", "void ref(int &n +intent(out), double *a +rank(1))",
+    # results which the generate phase turns into arguments (result_as_arg / set_return_to_void): templated, string, char
+    "std::vector<int> getValues(int n)", "std::vector<double> getWeights()", "const std::vector<double> &weights()",
+    "std::vector<std::string> names(int n)", "std::vector<unsigned long> ids() const", "std::string label(int i)",
+    "const std::string *plabel()", "std::vector<int> *pvalues(int n)", "char *cname()", "const char *ccname(int i) +len(30)",
+    "int countValues(const std::vector<int> &v)", "std::vector<long long> big(const std::vector<int> &v, int n)",
 ]
+
+
+def type_sig(a):
+    """what a Declaration records about its own type (parameters excluded): specifier, cv, template arguments,
+    typemap, declarator chain, array-ness, parameter-list presence, name"""
+    def dtor(d):
+        if d is None:
+            return None
+        return ([(p.ptr, bool(p.const), bool(p.volatile)) for p in d.pointer], d.name, dtor(d.func))
+    return (list(a.specifier), bool(a.const), bool(a.volatile), getattr(a.typemap, "name", None),
+            [type_sig(t) for t in a.template_arguments], dtor(a.declarator), len(a.array or []),
+            a.params is None, bool(a.func_const))
 
 
 def oracle_postgen(ctx):
@@ -586,6 +637,9 @@ def oracle_postgen(ctx):
             stat["by_value_type"][tn] = stat["by_value_type"].get(tn, 0) + 1
             if k not in oa or k not in ra or norm(oa[k]) != norm(ra[k]):
                 bad.append("%s%s: %r -> %r" % (path, k, oa.get(k), ra.get(k)))
+        so, sa = type_sig(orig), type_sig(again)
+        if so != sa:
+            bad.append("%stype: %s -> %s" % (path, so, sa))
         for i, (p, q) in enumerate(zip(orig.params or [], again.params or [])):
             bad += compare(p, q, path + "arg%d." % i, text, rendered)
         if len(orig.params or []) != len(again.params or []):
@@ -649,6 +703,220 @@ def _postgen_library(d):
 
 
 # ------------------------------------------------------------------ streams
+# ------------------------------------------------------------------ AST-rewriting operations
+REWRITE_TYPEMAPS = ["int", "long_long", "unsigned_int", "double", "std::string", "size_t", "char", "bool", "int64_t",
+                    "unsigned_long_long", "float", "short", "void"]
+
+
+def rewrite_family():
+    """function / object declarations whose result type is of every kind the generate phase rewrites (templated
+    std::vector<T>, std::string, char, built-in; by value, pointer, reference, cv) x parameter lists"""
+    results = ["std :: vector < int >", "std :: vector < double >", "std :: vector < unsigned long >",
+               "std :: vector < std :: string >", "std :: vector < const int >", "std :: string", "char", "int", "void", "double",
+               "unsigned long long", "size_t", "bool", "int8_t", "long long int"]
+    chains = ["", "*", "&", "* *", "* const", "* const *"]
+    params = ["( )", "( void )", "( int n )", "( int n , const double * a )", "( const std :: vector < int > & v )",
+              "( std :: string & s , int m )", "( int ( * cb ) ( int ) )", "( int SH_rv )", "( double * out , int n )"]
+    out = []
+    for r_ in results:
+        for c in chains:
+            for cv in ("", "const", "volatile"):
+                for prm in params:
+                    for tail in ("", "const", "+ len ( 30 )", "+ dimension ( n ) + owner ( caller )"):
+                        if tail == "const" and not prm:
+                            continue
+                        out.append(" ".join(x for x in (cv, r_, c, "getValues", prm, tail) if x))
+                out.append(" ".join(x for x in (cv, r_, c, "value") if x))          # object: no parameter list
+                out.append(" ".join(x for x in (cv, r_, c, "( * fp ) ( int n )") if x))  # parenthesised declarator
+                out.append(" ".join(x for x in (cv, r_, c) if x))                    # no declarator at all
+    return out
+
+
+def _rewrites(a):
+    """name of the operation, driver arguments, function applying it to a fresh copy of the declaration"""
+    import copy
+    from shroud import typemap
+
+    def settype(name):
+        def f(x):
+            x.set_type(typemap.lookup_type(name))
+            return x
+        return f
+
+    def inst(name):
+        def f(x):
+            node = copy.copy(x)
+            node.typemap = typemap.lookup_type(name)
+            return x.instantiate(node)
+        return f
+
+    ops = [("void", "void", "~", lambda x: (x.set_return_to_void(), x)[1]),
+           ("asarg", "asarg", "SH_rv", lambda x: x._as_arg("SH_rv")),
+           ("result", "result", "SH_rv", lambda x: (x.result_as_arg("SH_rv"), x)[1]),
+           ("result:out", "result", "out", lambda x: (x.result_as_arg("out"), x)[1])]
+    for tm in REWRITE_TYPEMAPS:
+        ops.append(("settype:" + tm, "settype", tm, settype(tm)))
+    ops.append(("instantiate:long_long", "settype", "long_long", inst("long_long")))
+    ops.append(("instantiate:std::string", "settype", "std::string", inst("std::string")))
+    return ops
+
+
+def rewrite_phase(ctx, cases, ok, thorough):
+    """(i) tie: model `Decl.setReturnToVoid / asArg / resultAsArg / setType` vs the real methods (driver op
+    `rewrite`); (ii) oracle, implementation only: after each rewrite the declaration's own rendering re-parses to the
+    declaration it now is, and g++ reads rendering and prototype rendering as the type the rewrite is documented
+    to give (`void name(params..., R * arg)`)."""
+    import copy
+    declast, todict = dc.mods()
+    drv = common.Driver("drv_decl")
+    reqs, impl, labels = [], [], []
+    stat = {"declarations": 0, "rewrites": 0, "by_op": {}, "roundtrip_checked": 0, "roundtrip_failures": 0,
+            "model_unmodelled": 0, "disagreements": 0}
+    gxx_cases = []
+    for text in cases:
+        line, a = dc.real_parse(text)
+        if a is None or not line.startswith("ok ") or has_init(a):
+            continue
+        stat["declarations"] += 1
+        toks = dc.enc_tokens(dc.raw_tokens(text))
+        for label, op, arg, fn in _rewrites(a):
+            try:
+                b = fn(copy.deepcopy(a))
+                res = dc.ast_line(b)
+            except dc.INTERNAL as e:
+                b, res = None, "crash " + type(e).__name__
+            except RuntimeError as e:
+                b, res = None, "reject " + common.enc(dc.last_line(e))
+            except Exception as e:  # noqa
+                b, res = None, "crash " + type(e).__name__
+            stat["rewrites"] += 1
+            stat["by_op"][label.split(":")[0]] = stat["by_op"].get(label.split(":")[0], 0) + 1
+            reqs.append("rewrite %s %s %s" % (op, common.enc(arg), toks))
+            impl.append(res)
+            labels.append("%s of %r" % (label, text))
+            ctx.count(1)
+            if b is None or not res.startswith("ok "):
+                continue
+            # ---- oracle: the rewritten declaration against its own rendering (real parser)
+            wrapped = b.declarator is not None and b.declarator.func is not None and op in ("asarg", "result")
+            if wrapped:
+                continue          # _as_arg of `R (*fp)(..)` sets a name beside the nested declarator: not a Declarator shape
+            if op == "settype" and (a.template_arguments or arg == "void"):
+                continue          # a template keeps its arguments by design; `void` is only a result type
+            if b.declarator is None and (b.attrs or b.array):
+                pass
+            stat["roundtrip_checked"] += 1
+            try:
+                rendered = b.gen_decl()
+                again = declast.check_decl(rendered, namespace=dc.library())
+                d1, d2 = dc.ser_decl(todict.to_dict(b)), dc.ser_decl(todict.to_dict(again))
+                why = None if d1 == d2 else "re-parsing it gives a different declaration"
+            except RuntimeError as e:
+                why = "it is rejected: " + dc.last_line(e)
+            except Exception as e:  # noqa
+                rendered = locals().get("rendered", "?")
+                why = "it raises " + type(e).__name__
+            if why and rt_class(b, rendered) in KNOWN_RT_CLASSES:
+                why = None        # the rendering limits recorded for unrewritten declarations are not this oracle's business
+            if why:
+                stat["roundtrip_failures"] += 1
+                ctx.fail("rewrite-roundtrip:" + label.split(":")[0], "after %s the declaration %r renders as %r; %s" % (
+                    label, text, rendered, why), {"kind": "rewrite", "decl": text, "op": label})
+            if op == "result" and b.params is not None and "+" not in text and not text.rstrip().endswith("const"):
+                gxx_cases.append((text, arg, a, b))
+    ctx.note("rewrite_oracle", {k: stat[k] for k in ("declarations", "rewrites", "roundtrip_checked", "roundtrip_failures")})
+    dc.guarded(ctx, "oracle-rewrite-gxx", rewrite_gxx, ctx, gxx_cases[: (4000 if thorough else 1200)])
+    if not (drv.available() and ok):
+        ctx.tie_broken("rewrite-correspondence", "driver not built")
+        return
+    model = drv.run(reqs)
+    dis = []
+    for q, x, y, lab in zip(reqs, impl, model, labels):
+        if y.startswith("unmodelled") or y == "not-ok":
+            stat["model_unmodelled"] += 1
+            continue
+        if x != y:
+            dis.append({"case": lab, "impl": _dec_line(x), "model": _dec_line(y)})
+        else:
+            ctx.nontrivial("rewrite:" + lab.split(" of ")[0].split(":")[0] + ":" + x.split(" ")[0])
+    stat["disagreements"] = len(dis)
+    ctx.note("rewrite_tie", stat)
+    if dis:
+        ctx.tie_broken("rewrite-correspondence", dis[:6])
+
+
+KNOWN_RT_CLASSES = ("attr-eq-value", "nested-template-argument", "expr-signed-operand")
+
+
+def _dec_line(line):
+    parts = line.split(" ")
+    out = parts[:2]
+    for x in parts[2:4]:
+        try:
+            out.append(repr(common.dec(x)))
+        except Exception:  # noqa
+            out.append(x)
+    return " ".join(out)[:400]
+
+
+def rewrite_gxx(ctx, cases):
+    """g++: `R name(params)` after result_as_arg(arg) must be `void name(params, R' arg)` where R' is R when R is a
+    pointer or reference and `R *` otherwise -- for gen_decl and for gen_arg_as_cxx(with_template_args=True)."""
+    if not cases:
+        return
+    tmp = common.scratch()
+    try:
+        lines = CXX_HEAD.split("\n")
+        where = {}
+        for i, (text, arg, a, b) in enumerate(cases):
+            name = a.name
+            where[len(lines) + 1] = ("orig", i)
+            lines.append("namespace o%d { extern %s; }" % (i, text))
+            want = ("namespace w%d { template<class F> struct X; template<class R, class... A> struct X<R(A...)> { "
+                    "using P = typename std::conditional<std::is_pointer<R>::value || std::is_reference<R>::value, R, "
+                    "typename std::add_pointer<R>::type>::type; using T = void(A..., P); }; "
+                    "using W = X<decltype(o%d::%s)>::T; }" % (i, i, name))
+            where[len(lines) + 1] = ("want", i)
+            lines.append(want)
+            for k, render in (("decl", lambda: b.gen_decl()), ("cxx", lambda: b.gen_arg_as_cxx(with_template_args=True))):
+                try:
+                    rtext = render()
+                except Exception:  # noqa
+                    continue
+                where[len(lines) + 1] = (k + "r", i)
+                lines.append("namespace %s%d { extern %s; }" % (k, i, rtext))
+                where[len(lines) + 1] = (k, i)
+                lines.append("static_assert(std::is_same<w%d::W, decltype(%s%d::%s)>::value, \"rewritten\");" % (i, k, i, name))
+        src = os.path.join(tmp, "t.cpp")
+        with open(src, "w") as f:
+            f.write("\n".join(lines) + "\n")
+        p = subprocess.run(["g++", "-std=c++11", "-fsyntax-only", "-fmax-errors=0", "-w", src],
+                           stdout=subprocess.PIPE, stderr=subprocess.STDOUT, text=True, timeout=600)
+        bad = {}
+        for m in re.finditer(r"t\.cpp:(\d+):\d+: error: (.*)", p.stdout):
+            ln = int(m.group(1))
+            if ln in where:
+                kind, i = where[ln]
+                bad.setdefault(i, {}).setdefault(kind, m.group(2))
+        n = 0
+        for i, (text, arg, a, b) in enumerate(cases):
+            e = bad.get(i, {})
+            if "orig" in e or "want" in e:
+                continue
+            n += 1
+            ctx.count(1)
+            for k, what in (("decl", "gen_decl()"), ("cxx", "gen_arg_as_cxx(with_template_args=True)")):
+                if k in e or k + "r" in e:
+                    got = b.gen_decl() if k == "decl" else b.gen_arg_as_cxx(with_template_args=True)
+                    ctx.fail("rewrite-gxx:result_as_arg", "g++: %r after result_as_arg(%r) is rendered by %s as %r, which is not "
+                             "`void %s(<parameters>, <result type as pointer> %s)` (%s)" % (
+                                 text, arg, what, got, a.name, arg, e.get(k, e.get(k + "r"))),
+                             {"kind": "rewrite", "decl": text, "op": "result"})
+        ctx.note("rewrite_gxx_compared", n)
+    finally:
+        common.rmtree(tmp)
+
+
 def corpus_cases(name):
     path = os.path.join(common.CORPUS, name)
     out = []
@@ -700,6 +968,14 @@ def special_shapes():
     out += ["void f ( void )", "void f ( )", "void f ( const void )", "void f ( void + a )", "void f ( void x )",
             "int ( * cb ) ( void )", "int ( * cb ) ( )", "void f ( void ( * ) ( void ) )",
             "void f ( int ( * ) ( int ( * ) ( void * ) ) )"]
+    # nested declarators of every kind: pointer / reference / const pointer to function, to array, to array of arrays;
+    # function pointers returning pointers; as top-level declaration and as parameter
+    for t in ("int", "const double", "char *", "const char * const *", "unsigned long"):
+        for inner in ("* m", "& m", "* const m", "* * m", "* volatile m"):
+            for suffix in ("[ 4 ]", "[ 3 ] [ 2 ]", "( int a )", "( void )", "( const double * v , int n )", "( )"):
+                out.append("%s ( %s ) %s" % (t, inner, suffix))
+                out.append("void f ( %s ( %s ) %s )" % (t, inner, suffix))
+                out.append("%s ( %s ) %s" % (t, inner.replace(" m", ""), suffix))
     return out
 
 
@@ -1099,6 +1375,14 @@ def run(ctx):
     # ---- oracle (c): declarations after the generate phase (attribute values as integers / True / text)
     dc.guarded(ctx, "oracle-postgen", oracle_postgen, ctx)
     dc.guarded(ctx, "oracle-compilers", phase_compilers)
+
+    def phase_rewrite():
+        fam = rewrite_family()
+        fns = [s for s, a, l in zip(st["cases"], st["asts"], st["impl"])
+               if a is not None and l.startswith("ok ") and a.params is not None][: (6000 if thorough else 1200)]
+        rewrite_phase(ctx, fam + fns, ok, thorough)
+
+    dc.guarded(ctx, "rewrite", phase_rewrite)
 
 
 def replay(path):
